@@ -2,16 +2,18 @@
     (route/table.go Lookup/lookup/matchingHosts/matchingHostNoGlob/
     sortHostsReverseHostPort/ReverseHostPort, route/routes.go Less, route/matcher.go).
     This file contains only statements, [exact], and [Print Assumptions]. *)
-From Coq Require Import String List NArith Bool.
-From Fabio Require Import Lib.Bytes Model.Glob Model.Lookup Proofs.Lookup Proofs.LookupOrder.
+From Coq Require Import String List NArith Bool Sorting.Permutation.
+From Fabio Require Import Lib.Outcome Lib.Bytes Model.Glob Model.Lookup Model.LookupCmd Proofs.Lookup Proofs.LookupOrder
+  Proofs.LookupCmd.
 Import ListNotations.
 Local Open Scope N_scope.
 
 (* Routed only to a matching route: whatever Lookup selects is a route of the table whose
    host pattern matches the request host (case-insensitively, default port removed) or that
    has no host, and whose path matches under the configured matcher.  All tables, requests,
-   matchers, glob on/off; outside region 5 (keys ending in ':', via [wf_keys]) and region 6
-   (gobwas/glob deviating from glob semantics). *)
+   matchers, glob on/off; [wf_keys] = the keys are lower-case (addRoute lower-cases them);
+   outside region 6 (gobwas/glob deviating from glob semantics).  Region 5 (keys ending in
+   ':') was repaired in /repo by cf1c479 and is no longer excluded. *)
 Theorem C03_lookup_sound : forall t host tls uri m globoff c,
   wf_keys t ->
   F_C03_gobwas_overlap globoff tls m t host uri = false ->
@@ -20,8 +22,8 @@ Theorem C03_lookup_sound : forall t host tls uri m globoff c,
 Proof. exact lookup_sound. Qed.
 Print Assumptions C03_lookup_sound.
 
-(* If any candidate exists the request is routed (outside regions 5, 6; region 1 was
-   repaired in /repo by 3f5e3c8 and is no longer excluded). *)
+(* If any candidate exists the request is routed (outside region 6; regions 1 and 5 were
+   repaired in /repo by 3f5e3c8 / cf1c479 and are no longer excluded). *)
 Theorem C03_lookup_complete : forall t host tls uri m globoff c,
   wf_keys t -> NoDup (keys t) ->
   F_C03_gobwas_overlap globoff tls m t host uri = false ->
@@ -40,29 +42,53 @@ Theorem C03_prefix_longest_wins : forall t host tls uri globoff k p id,
 Proof. exact prefix_longest_wins. Qed.
 Print Assumptions C03_prefix_longest_wins.
 
-Theorem C03_iprefix_longest_wins_on_domain : forall t host tls uri globoff k p id,
-  table_sorted t -> F_C03_iprefix_case MIPrefix t = false ->
+(* since /repo c1f03c0 (Routes.Less compares the lower-cased paths first) the same holds
+   for the iprefix matcher, unconditionally *)
+Theorem C03_iprefix_longest_wins : forall t host tls uri globoff k p id,
+  table_sorted t ->
   lookup t host tls uri MIPrefix globoff = Some (k, p, id) ->
   forall p' id', In (p', id') (assoc t k) -> has_prefix (lower uri) (lower p') = true ->
                  (length p' <= length p)%nat.
-Proof. exact iprefix_longest_wins_on_domain. Qed.
-Print Assumptions C03_iprefix_longest_wins_on_domain.
+Proof. exact iprefix_longest_wins. Qed.
+Print Assumptions C03_iprefix_longest_wins.
 
 (* the hypotheses are what NewTable establishes / what ordinary keys satisfy *)
 Theorem C03_new_table_sorted : forall defs, table_sorted (new_table defs).
 Proof. exact new_table_sorted. Qed.
 Print Assumptions C03_new_table_sorted.
 
-Theorem C03_rhp_stable_nocolon : forall k, has_colon k = false -> rhp_stable k.
-Proof. exact rhp_stable_nocolon. Qed.
-Print Assumptions C03_rhp_stable_nocolon.
+(* Every host handed to the per-host lookup is a key of the table that matched: for ALL
+   tables and requests the host list is a permutation of the matching keys (since /repo
+   cf1c479 "sorting the matching hosts no longer rewrites them"; false before, see
+   C03_colon_key_refuted). *)
+Theorem C03_sort_hosts_perm : forall l, Permutation (sort_hosts_rhp l) l.
+Proof. exact sort_hosts_rhp_perm. Qed.
+Print Assumptions C03_sort_hosts_perm.
+
+Theorem C03_matching_hosts_perm : forall t host tls,
+  Permutation (matching_hosts t host tls)
+    (filter (fun k => gobwas_match (normalize_host k tls) (normalize_host host tls)) (keys t)).
+Proof. exact matching_hosts_perm. Qed.
+Print Assumptions C03_matching_hosts_perm.
+
+Theorem C03_matching_host_noglob_perm : forall t host tls,
+  Permutation (matching_host_noglob t host tls)
+    (map lower (filter (fun k => beq (normalize_host k tls) (normalize_host host tls)) (keys t))).
+Proof. exact matching_host_noglob_perm. Qed.
+Print Assumptions C03_matching_host_noglob_perm.
 
 (* ---- the ordering clauses, outside the finding regions ----
    Domain: [table_ok] = host keys lower-case (addRoute lower-cases them), pairwise distinct
    (a Go map), without ':' (no explicit port in the key; keys with ports are covered by the
-   correspondence run only), routes sorted as NewTable sorts them; [region ... = None] =
-   none of the five open finding regions (2-6) applies; [host_bytes_ok] = every byte of the normalised
-   Host is above '*' in byte order (letters, digits, '-', '.', ':' all are). *)
+   correspondence run only) and without '[' '{' '\' (syntax outside the glob model), routes
+   sorted as NewTable sorts them; [region ... = None] = none of the two open finding
+   regions applies: 6 (gobwas/glob deviating from glob semantics),
+   3 (a '?' directly before a
+   pattern's literal host suffix competing with a longer suffix whose byte there is <= '?');
+   [host_bytes_ok] = every byte of the normalised Host is above '*' in byte order (letters,
+   digits, '-', '.', ':' all are).  Regions 1, 2, 4, 5, 7 were repaired in /repo (3f5e3c8,
+   c1f03c0, bc98e3c, cf1c479, 1814501) and are no longer excluded; in particular an empty request
+   host is inside the domain, so [C03_hostless_last] holds for it too. *)
 
 (* THE PROPERTY on the domain: what Lookup returns satisfies the brute-force specification:
    it is a candidate, no candidate beats it, and it is None only if there is no candidate. *)
@@ -87,14 +113,16 @@ Theorem C03_hostless_last : forall t host tls uri m globoff p id,
 Proof. exact hostless_last. Qed.
 Print Assumptions C03_hostless_last.
 
-(* an exact host beats a wildcard host: if an exact-host candidate exists, the selected
-   route's host is exact (region 4 excluded: the host is strictly longer than every
-   matching wildcard's literal tail) *)
+(* an exact host beats every pattern, whatever its metacharacters (since /repo bc98e3c: no
+   side condition on the pattern's literal tail, no condition on '?', on the host being
+   non-empty (1814501) or [host_bytes_ok]):
+   if an exact-host candidate exists, the selected route's host is exact *)
 Theorem C03_exact_beats_wildcard : forall t host tls uri m k p id,
-  table_ok t -> region t false tls m host uri = None -> host_bytes_ok host tls ->
+  table_ok t ->
+  F_C03_gobwas_overlap false tls m t host uri = false ->
   lookup t host tls uri m false = Some (k, p, id) ->
   forall k' p' id', In (k', p', id') (candidates t false tls m host uri) ->
-    k' <> [] -> has_meta k' = false -> k <> [] -> has_meta k = false.
+    k' <> [] -> has_meta k' = false -> k <> [] /\ has_meta k = false.
 Proof. exact exact_beats_wildcard. Qed.
 Print Assumptions C03_exact_beats_wildcard.
 
@@ -118,13 +146,30 @@ Theorem C03_beats_trans : forall globoff tls m a b c,
 Proof. exact beats_trans. Qed.
 Print Assumptions C03_beats_trans.
 
-(* every table NewTable builds from definitions without a port in the host is in the domain *)
+(* every table NewTable builds from definitions without a port and without '[' '{' '\' in the host is in the domain *)
 Theorem C03_new_table_ok : forall defs,
-  (forall d, In d defs -> has_colon (fst (fst d)) = false) -> table_ok (new_table defs).
+  (forall d, In d defs -> has_colon (fst (fst d)) = false /\ existsb is_unmodelled (fst (fst d)) = false) ->
+  table_ok (new_table defs).
 Proof. exact new_table_ok. Qed.
 Print Assumptions C03_new_table_ok.
 
-(* ---- refutations: the unchanged code violates the property here (witnesses) ---- *)
+(* ---- tables built by command sequences (route add / del / weight, C05's model of the
+   command loop composed with the lookup model) ----
+   Table.lookup returns nil at a route without targets and so hides the shorter routes of
+   the host.  No table reachable by commands, of any length, has such a route (the sweeps of
+   delRoute remove them all), so on reachable tables Lookup including that branch
+   ([lookup_cmd]) is [lookup] and the theorems above apply. *)
+Theorem C03_cmd_table_reachable : forall cs t,
+  cmd_table cs = Ok t -> no_targetless t /\ NoDup (keys t) /\ table_sorted t.
+Proof. exact cmd_table_reachable. Qed.
+Print Assumptions C03_cmd_table_reachable.
+
+Theorem C03_cmd_lookup_is_lookup : forall cs t host tls uri m globoff,
+  cmd_table cs = Ok t -> lookup_cmd t host tls uri m globoff = lookup t host tls uri m globoff.
+Proof. exact cmd_lookup_is_lookup. Qed.
+Print Assumptions C03_cmd_lookup_is_lookup.
+
+(* ---- refutations (witnesses): where the code violates / violated the property ---- *)
 Local Open Scope string_scope.
 
 (* F-C03-1, REPAIRED in /repo by 3f5e3c8 ("fix: upper-case Host header matches no route when
@@ -141,33 +186,89 @@ Theorem C03_noglob_upper_host_refuted :
 Proof. exact noglob_upper_host_refuted. Qed.
 Print Assumptions C03_noglob_upper_host_refuted.
 
+(* F-C03-2, REPAIRED in /repo by c1f03c0: about the route order before the repair
+   ([new_table_unrepaired], raw byte order); the current order selects the longer /Foo. *)
 Theorem C03_iprefix_longest_refuted :
   let defs := [([], bs "/fo", 0); ([], bs "/Foo", 1)] in
-  ex_refuted defs (bs "foo.com") false (bs "/foo/bar") MIPrefix false (Some ([], bs "/fo", 0))
-  /\ F_C03_iprefix_case MIPrefix (new_table defs) = true
-  /\ In ([], bs "/Foo", 1) (candidates (new_table defs) false false MIPrefix (bs "foo.com") (bs "/foo/bar")).
+  let told := new_table_unrepaired defs in
+  let t := new_table defs in
+  lookup told (bs "foo.com") false (bs "/foo/bar") MIPrefix false = Some ([], bs "/fo", 0)
+  /\ spec_b told false false MIPrefix (bs "foo.com") (bs "/foo/bar") (Some ([], bs "/fo", 0)) = false
+  /\ F_C03_iprefix_case MIPrefix told = true
+  /\ lookup t (bs "foo.com") false (bs "/foo/bar") MIPrefix false = Some ([], bs "/Foo", 1)
+  /\ spec_b t false false MIPrefix (bs "foo.com") (bs "/foo/bar") (Some ([], bs "/Foo", 1)) = true.
 Proof. exact iprefix_longest_refuted. Qed.
 Print Assumptions C03_iprefix_longest_refuted.
 
+(* F-C03-3, the part REPAIRED in /repo by bc98e3c: about the host order before the repair
+   ([lookup_glob_unrepaired]): ?.foo.com was tried before the exact host 1.foo.com; the
+   current Lookup selects the exact host. *)
 Theorem C03_metachar_order_refuted :
   let defs := [(bs "?.foo.com", bs "/", 0); (bs "1.foo.com", bs "/", 1)] in
-  ex_refuted defs (bs "1.foo.com") false (bs "/") MPrefix false (Some (bs "?.foo.com", bs "/", 0))
-  /\ F_C03_metachar_order false (new_table defs) = true.
+  let t := new_table defs in
+  lookup_glob_unrepaired t (bs "1.foo.com") false (bs "/") MPrefix = Some (bs "?.foo.com", bs "/", 0)
+  /\ spec_b t false false MPrefix (bs "1.foo.com") (bs "/") (Some (bs "?.foo.com", bs "/", 0)) = false
+  /\ F_C03_metachar_order_unrepaired false t = true
+  /\ lookup t (bs "1.foo.com") false (bs "/") MPrefix false = Some (bs "1.foo.com", bs "/", 1)
+  /\ spec_b t false false MPrefix (bs "1.foo.com") (bs "/") (Some (bs "1.foo.com", bs "/", 1)) = true.
 Proof. exact metachar_order_refuted. Qed.
 Print Assumptions C03_metachar_order_refuted.
 
+(* F-C03-3, what is LEFT (current code): among patterns, ?.foo.com is tried before
+   *1.foo.com although the latter has the longer literal host suffix *)
+Theorem C03_metachar_among_patterns_refuted :
+  let defs := [(bs "?.foo.com", bs "/", 0); (bs "*1.foo.com", bs "/", 1)] in
+  ex_refuted defs (bs "1.foo.com") false (bs "/") MPrefix false (Some (bs "?.foo.com", bs "/", 0))
+  /\ F_C03_metachar_order false false (new_table defs) (bs "1.foo.com") = true
+  /\ region (new_table defs) false false MPrefix (bs "1.foo.com") (bs "/") = Some 3.
+Proof. exact metachar_among_patterns_refuted. Qed.
+Print Assumptions C03_metachar_among_patterns_refuted.
+
+(* F-C03-4, REPAIRED in /repo by bc98e3c: about the host order before the repair: *foo.com
+   was tried before the exact host foo.com; the current Lookup selects the exact host. *)
 Theorem C03_empty_star_beats_exact_refuted :
   let defs := [(bs "*foo.com", bs "/", 0); (bs "foo.com", bs "/", 1)] in
-  ex_refuted defs (bs "foo.com") false (bs "/") MPrefix false (Some (bs "*foo.com", bs "/", 0))
-  /\ F_C03_empty_star false false (new_table defs) (bs "foo.com") = true.
+  let t := new_table defs in
+  lookup_glob_unrepaired t (bs "foo.com") false (bs "/") MPrefix = Some (bs "*foo.com", bs "/", 0)
+  /\ spec_b t false false MPrefix (bs "foo.com") (bs "/") (Some (bs "*foo.com", bs "/", 0)) = false
+  /\ F_C03_empty_star false false t (bs "foo.com") = true
+  /\ lookup t (bs "foo.com") false (bs "/") MPrefix false = Some (bs "foo.com", bs "/", 1)
+  /\ spec_b t false false MPrefix (bs "foo.com") (bs "/") (Some (bs "foo.com", bs "/", 1)) = true.
 Proof. exact empty_star_beats_exact_refuted. Qed.
 Print Assumptions C03_empty_star_beats_exact_refuted.
 
+(* F-C03-7, introduced by /repo bc98e3c and REPAIRED by its follow-up 1814501: about the
+   intermediate host order ([lookup_glob_bc98e3c]): for an empty normalised host the key ""
+   of the host-less routes counted as an exact host and was moved in front of the matching
+   pattern "*".  The current Lookup selects the route of "*". *)
+Theorem C03_empty_host_hostless_first_refuted :
+  let defs := [([], bs "/", 0); (bs "*", bs "/", 1)] in
+  let t := new_table defs in
+  lookup_glob_bc98e3c t [] false (bs "/") MPrefix = Some ([], bs "/", 0)
+  /\ spec_b t false false MPrefix [] (bs "/") (Some ([], bs "/", 0)) = false
+  /\ F_C03_empty_host false t [] = true
+  /\ beats false false MPrefix (bs "*", bs "/", 1) ([], bs "/", 0) = true
+  /\ lookup t [] false (bs "/") MPrefix false = Some (bs "*", bs "/", 1)
+  /\ spec_b t false false MPrefix [] (bs "/") (Some (bs "*", bs "/", 1)) = true.
+Proof. exact empty_host_hostless_first_refuted. Qed.
+Print Assumptions C03_empty_host_hostless_first_refuted.
+
+(* F-C03-5, REPAIRED in /repo by cf1c479: about the host sort before the repair
+   ([lookup_glob_double_unrepaired], ReverseHostPort mapped twice over the hosts): the key
+   "foo.com:" was rewritten to "foo.com", a string that is not among the matching keys, and
+   the route of a key whose pattern does not match the host was selected.  The current
+   Lookup hands on the keys themselves and selects the route of "foo.com:". *)
 Theorem C03_colon_key_refuted :
   let defs := [(bs "foo.com:", bs "/", 0); (bs "foo.com", bs "/", 1); (bs "*", bs "/", 2)] in
-  ex_refuted defs (bs "foo.com:") false (bs "/") MPrefix false (Some (bs "foo.com", bs "/", 1))
-  /\ F_C03_colon_key (new_table defs) = true
-  /\ is_candidate false false MPrefix (bs "foo.com:") (bs "/") (bs "foo.com", bs "/", 1) = false.
+  let t := new_table defs in
+  lookup_glob_double_unrepaired t (bs "foo.com:") false (bs "/") MPrefix = Some (bs "foo.com", bs "/", 1)
+  /\ spec_b t false false MPrefix (bs "foo.com:") (bs "/") (Some (bs "foo.com", bs "/", 1)) = false
+  /\ F_C03_colon_key t = true
+  /\ is_candidate false false MPrefix (bs "foo.com:") (bs "/") (bs "foo.com", bs "/", 1) = false
+  /\ matching_hosts_double_unrepaired t (bs "foo.com:") false = [bs "foo.com"; bs "*"]
+  /\ matching_hosts t (bs "foo.com:") false = [bs "foo.com:"; bs "*"]
+  /\ lookup t (bs "foo.com:") false (bs "/") MPrefix false = Some (bs "foo.com:", bs "/", 0)
+  /\ spec_b t false false MPrefix (bs "foo.com:") (bs "/") (Some (bs "foo.com:", bs "/", 0)) = true.
 Proof. exact colon_key_refuted. Qed.
 Print Assumptions C03_colon_key_refuted.
 
